@@ -174,3 +174,52 @@ impl RawMachine {
         self.state = State::Running;
     }
 }
+
+impl RawMachine {
+    /// One-line rendering of the complete machine state (registers, RAM, bus
+    /// registers, board, sequencer). Equal strings <=> equal machines as far
+    /// as any program or the UI can tell.
+    pub fn verif_dump(&self) -> String {
+        use std::fmt::Write;
+        let mut s = String::with_capacity(700);
+        let snap = self.verif_snapshot();
+        let bus = self.bus.verif_snapshot();
+        let board = self.bus.board();
+        let _ = write!(s, "st={:?} ss={:?} ps={:?} regs=", self.state, self.stacksize, self.programsize);
+        for b in self.register.content().iter() {
+            let _ = write!(s, "{:02x}", b);
+        }
+        s.push_str(" ram=");
+        for b in self.bus.memory().iter() {
+            let _ = write!(s, "{:02x}", b);
+        }
+        let _ = write!(
+            s,
+            " in={:02x}{:02x}{:02x}{:02x} out={:02x}{:02x} bus={:?} seq={:?}",
+            self.bus.read(0xFC),
+            self.bus.read(0xFD),
+            self.bus.read(0xFE),
+            self.bus.read(0xFF),
+            self.bus.output_fe(),
+            self.bus.output_ff(),
+            bus,
+            snap
+        );
+        let _ = write!(
+            s,
+            " board=di1:{:02x},org:{:02x}/{:02x},temp:{:08x},ai:{:08x}/{:08x},dasr:{:02x},daisr:{:02x},daicr:{:02x},fan:{},uio:{:?}",
+            board.digital_input1(),
+            board.digital_output1(),
+            board.digital_output2(),
+            board.temp().to_bits(),
+            board.analog_inputs()[0].to_bits(),
+            board.analog_inputs()[1].to_bits(),
+            board.dasr().bits(),
+            board.daisr().bits(),
+            board.daicr().bits(),
+            board.fan_rpm(),
+            board.uio_dir()
+        );
+        s
+    }
+}
